@@ -7,6 +7,7 @@ from inferno.core.infrastructure import Module, RecordTensor
 from inferno.functional import interpolation as I, extrapolation as E
 
 KEEP = []  # RecordTensor only weak-references its owner
+SDT = {"f64": torch.float64, "i64": torch.int64, "bool": torch.bool}   # storage / observation data types
 
 
 def interp_of(ic, par):
@@ -41,7 +42,7 @@ def extrap_of(ec, par):
 
 
 def flat(t):
-    return [fhex(v) for v in t.reshape(-1).tolist()]
+    return [fhex(float(v)) for v in t.reshape(-1).tolist()]
 
 
 def snapshot(rt):
@@ -50,7 +51,6 @@ def snapshot(rt):
         return [rt.recordsz, rt.pointer, 0]
     if v.numel() == 0 and v.ndim <= 1:
         return [rt.recordsz, rt.pointer, 1]
-    assert v.dtype == torch.float64, v.dtype
     return [rt.recordsz, rt.pointer, 2, list(v.shape[1:]), [flat(v[i]) for i in range(v.shape[0])]]
 
 
@@ -67,11 +67,14 @@ def build(case):
     return rt
 
 
-def apply(rt, op, shape):
+def apply(rt, op, shape, odt=torch.float64):
+    """odt: data type of the observations pushed / inserted (the first push into None storage creates
+    storage of that type); times are always float64"""
     k = op[0]
     aux = None
     if k == "push":
-        rt.push(torch.tensor(op[1], dtype=torch.float64).reshape(shape), inplace=True)
+        rt.push(torch.tensor(op[1], dtype=torch.float64).reshape(shape).to(odt), inplace=True)
+        assert rt.value.dtype == odt, (rt.value.dtype, odt)
         return [1], aux
     if k == "incr":
         return [2, rt.incr(op[1])], aux
@@ -95,22 +98,22 @@ def apply(rt, op, shape):
             row = []
             for j in range(per):
                 rs = rt.select(float(times[e * per + j]), fn, tolerance=tol, offset=off, interp_kwargs=kw)
-                row.append(fhex(rs.reshape(-1)[e].item()))
+                row.append(fhex(float(rs.reshape(-1)[e].item())))
             aux.append(row)
         if len(tshape) == len(shape):
             return [3, list(r.shape), flat(r)], aux
         d = r.shape[-1]
-        return [4, list(r.shape[:-1]), [[fhex(x) for x in row] for row in r.reshape(-1, d).tolist()]], aux
+        return [4, list(r.shape[:-1]), [[fhex(float(x)) for x in row] for row in r.reshape(-1, d).tolist()]], aux
     if k == "insS":
         _, sh, els, tol, off, t, ec, par, inplace = op
         fn, kw = extrap_of(ec, par)
-        rt.insert(torch.tensor(els, dtype=torch.float64).reshape(sh), t, fn, tolerance=tol, offset=off,
+        rt.insert(torch.tensor(els, dtype=torch.float64).reshape(sh).to(odt), t, fn, tolerance=tol, offset=off,
                   inplace=inplace, extrap_kwargs=kw)
         return [1], aux
     if k == "insT":
         _, sh, els, tol, off, tsh, times, ec, par, inplace = op
         fn, kw = extrap_of(ec, par)
-        rt.insert(torch.tensor(els, dtype=torch.float64).reshape(sh),
+        rt.insert(torch.tensor(els, dtype=torch.float64).reshape(sh).to(odt),
                   torch.tensor(times, dtype=torch.float64).reshape(tsh), fn, tolerance=tol, offset=off,
                   inplace=inplace, extrap_kwargs=kw)
         return [1], aux
@@ -123,7 +126,7 @@ def run_case(case):
     for op in case["ops"]:
         aux = None
         try:
-            o, aux = apply(rt, op, case["shape"])
+            o, aux = apply(rt, op, case["shape"], SDT[case.get("dtype", "f64")])
             out = [0, o]
         except Exception as e:  # noqa
             c = exc_code(e)
